@@ -8,6 +8,7 @@ LEVEL = "other"
 MODES = ALL_MODES
 FUNCS = ["data:TimePoint.add_truncated", ("data:TimePoint.__add__", r"^trunc:|exact-whole$"),
          "ghost:truncated_commutes_and_idempotent", "data:TimePoint.to_time_zone",
+         ("data:TimePoint.__init__", r"^trunc"),
          ] + TICK + T1_CAL
 LEMMAS = CAL_LEMMAS + ["day.floor", "day.floor.int"]
 CANARIES = ["canary.week52"]
